@@ -65,7 +65,7 @@ def check_graph(r, k, G, depths=(0, 1, 2, 3, 4), leaf_from=None):
                 r.v(pre + 'latter_map_to_accessor|depends-on-successor-order-in-the-map', 'graph', dict(case, variant=variant), G if n <= 16 else None,
                     U.rows(back) if st == 'ok' and n <= 16 else repr(back)[:200])
     # accessor <-> matrix
-    if k <= 3:
+    if k <= 5:
         st, mat, _ = brun(dsw.accessor_to_adjacency_matrix, acc)
         r.trans += 1
         if st != 'ok':
@@ -203,6 +203,37 @@ def _w_ill(chunk):
     return r
 
 
+def _w_big(chunk):
+    r = core.Res()
+    for k, G in chunk:
+        live = sorted(O.has_arcs(G))
+        check_graph(r, k, G, depths=(0, 1, k, k + 1), leaf_from=live[:2] + live[-2:])
+        r.ctr['higher_order_graphs'] += 1
+    return r
+
+
+def big_graphs(quick):
+    """Orders 4 and 5: filter coding graphs and valid graphs (reference construction), complete graphs."""
+    from .C03 import filter_masks
+    out = [(4, O.complete(4)), (5, O.complete(5))]
+    for k, mask in filter_masks(4, 5):
+        if not mask:
+            continue
+        out.append((k, O.from_mask(mask, k)))
+        S = O.gfp(mask, k, 1)
+        if S:
+            G = O.from_mask(S, k)
+            out.append((k, G))
+            live = sorted(S)                      # and a non vertex-induced arc subset of it
+            G2 = [list(r_) for r_ in G]
+            for i, v in enumerate(live[::3]):
+                o = O.outs(G2, v)
+                if len(o) > 1:
+                    G2[v][o[i % len(o)]] = -1
+            out.append((k, G2))
+    return out[::2] if quick else out
+
+
 def run(ctx):
     from ..observe import install
     import dsw
@@ -224,11 +255,13 @@ def run(ctx):
                 if w not in s:
                     ill.append((k, u, w, range(16) if k == 2 or not ctx.quick else (0, 15, 5)))
     ctx.pmap(_w_ill, core.chunks_of(ill, 100))
-    ctx.bounds = {'order1': 'all 65536 arc subsets', 'order2_binary': 'all 6 x 2^8 arc subsets',
+    bg = big_graphs(ctx.quick)
+    ctx.pmap(_w_big, [[g] for g in bg])
+    ctx.bounds = {'orders_4_5': '%d graphs (complete, filter valid graphs, coding graphs, thinned arc subsets)' % len(bg), 'order1': 'all 65536 arc subsets', 'order2_binary': 'all 6 x 2^8 arc subsets',
                   'order3_binary': '%d x 2^16 arc subsets' % (1 if ctx.quick else 6), 'order2_complete_minus_arcs': '<= 2 (2081 graphs)',
                   'leaf_depths': [0, 4], 'illegal_single_arc_matrices': len(ill)}
     ctx.rule = ('one case = one arc subset (not necessarily vertex-induced): accessor->latter map->accessor and '
                 'accessor->matrix->accessor identities, latter-map content, matrix content, vertex listing, depth-d leaf '
                 'multisets from both representations against reference walks; or one illegal single-arc matrix (alone and on '
                 'every legal row pattern) that must raise ValueError; non-trivial = graph with at least three different out-degrees')
-    ctx.assumptions = ['leaf queries compared as multisets', 'orders above 3 not explored']
+    ctx.assumptions = ['leaf queries compared as multisets', 'orders above 3 only through an enumerated family of 4- and 5-order graphs']
